@@ -14,7 +14,8 @@ KNOBS = {
             Knobs(fail_rate=4, undefined_rate=5, max_targets=5),
             Knobs(fail_rate=0, undefined_rate=0, max_targets=5, sabotage=True),
             Knobs(fail_rate=0, undefined_rate=0, max_targets=6, slash=True),
-            Knobs(fail_rate=0, undefined_rate=0, max_targets=6, dense=True)],
+            Knobs(fail_rate=0, undefined_rate=0, max_targets=6, dense=True),
+            Knobs(fail_rate=0, undefined_rate=0, max_targets=6, checkpoint=True, force_mode=0, nested_only=True)],
     "C05": [Knobs(undefined_rate=20, notexec_rate=3, fail_rate=0), Knobs(undefined_rate=10, fail_rate=6, max_targets=6),
             Knobs(undefined_rate=25, fail_rate=0, custom_dirs=True, max_targets=5),
             Knobs(undefined_rate=30, notexec_rate=0, fail_rate=0, max_targets=4),
@@ -80,6 +81,52 @@ def one(prop, seed, model, rep):
         repo.done()
 
 
+def dup_case(seed, model, rep):
+    """sequences that share or repeat a step, and -c naming a step again: the commands run in the
+    documented order - expanded sequences first, then --commands, each in the order given - however
+    often a name occurs"""
+    rng = scen.Rng(seed)
+    targets = [{"path": "base"}, {"path": "mid", "uses": ["base"]}, {"path": "top", "uses": ["mid"]}][:rng.range(1, 3)]
+    names = ["prep", "build", "test", "lint"]
+    seqs = {"compile": [rng.pick(names), rng.pick(names)], "check": [rng.pick(names), rng.pick(names), rng.pick(names)][:rng.range(1, 3)]}
+    use = rng.pick([["compile", "check"], ["check", "compile"], ["compile"], ["compile", "compile"]])
+    extra = [rng.pick(names) for _ in range(rng.range(0, 2))]
+    expected = [c for sname in use for c in seqs[sname]] + extra
+    repo = scen.Repo(targets, sequences=seqs, git=False)
+    case = {"scenario": {"seed": seed, "mode": "dup_commands", "sequences": seqs, "use": use, "commands": extra}}
+    try:
+        for t in targets:
+            for c in names:
+                repo.install(t["path"], c)
+        repo.set_plan({"*": {"sleep_ms": 15}})
+        args = ["run", "-s"] + use + (["-c"] + extra if extra else [])
+        rc, j, out, err = repo.mono(*args, timeout=120)
+        rep.evaluations += 1
+        rep.count("repeated_command_names" if len(set(expected)) < len(expected) else "distinct_command_names")
+        if rc != 0 or j is None:
+            rep.count("violations_of_C06")
+            return
+        doc = [r["command"] for r in j["results"]]
+        # what the processes did: executables ordered by start time, consecutive equal commands merged
+        starts = sorted(repo.traces(), key=lambda t: t["start_ns"])
+        seen = []
+        for t in starts:
+            if not seen or seen[-1] != t["command"]:
+                seen.append(t["command"])
+        want_seen = []
+        for c in expected:
+            if not want_seen or want_seen[-1] != c:
+                want_seen.append(c)
+        if doc != expected or seen != want_seen or len(starts) != len(expected) * len(targets):
+            rep.oracle_fail({"kind": "commands were not executed in the documented order", "scenario": case["scenario"],
+                             "expected": expected, "result_document": doc, "started_in_order": seen, "executables_started": len(starts)})
+            return
+        if len(set(expected)) < len(expected):
+            rep.nontrivial_case(case["scenario"])
+    finally:
+        repo.done()
+
+
 def main():
     args = scen.parse_args(sys.argv)
     prop = args["prop"]
@@ -94,7 +141,17 @@ def main():
     rng = scen.Rng(args["seed"])
     n = (1600 if args["tier"] == "thorough" else 240) * args["budget"]
     seeds += [rng.next() for _ in range(n)]
+    dup_seeds = []
+    for c in scen.load_corpus(args["corpus"], prop):
+        sc = c.get("scenario", c)
+        if sc.get("mode") == "dup_commands" and sc.get("seed") in seeds:
+            seeds.remove(sc["seed"])
+            dup_seeds.append(sc["seed"])
     scen.run_cases(lambda s: one(prop, s, model, rep), seeds, rep, 12)
+    if prop == "C04":
+        if args["budget"] > 0:
+            dup_seeds += [rng.next() for _ in range((60 if args["tier"] == "thorough" else 10) * args["budget"])]
+        scen.run_cases(lambda s: dup_case(s, model, rep), dup_seeds, rep, 6)
     scen.finish(args, rep, t0, model)
 
 
